@@ -223,3 +223,11 @@ contract("src/primaite/game/agent/observations/host_observations.py::HostObserva
          modifies=["ApplicationObservation.ConfigSchema.applications_requires_scan", "ApplicationObservation.ConfigSchema.thresholds"], allocates=True,
          loops={3: {"inv": [("done_so_far", "forall(j, 0, _i, config.applications[j].applications_requires_scan == config.applications_requires_scan)")],
                     "modifies": ["ApplicationObservation.ConfigSchema.applications_requires_scan", "ApplicationObservation.ConfigSchema.thresholds"]}})
+# (when the loop body is wrong the preservation VC is satisfiable only with a quantified model, which the solver does not produce; the
+# bounded twin, with the loop unrolled, decides such a change)
+contract("src/primaite/game/agent/observations/host_observations.py::HostObservation.from_config#applications_bounded", props=["C09"], bounded=2,
+         region=("block", {"start": "for application_config in config.applications:", "count": 1}),
+         types={"config": "HostObservation.ConfigSchema"},
+         ensures=[("each_application_gets_the_applications_option",
+                   "forall(j, 0, len(config.applications), config.applications[j].applications_requires_scan == config.applications_requires_scan)")],
+         modifies=["ApplicationObservation.ConfigSchema.applications_requires_scan", "ApplicationObservation.ConfigSchema.thresholds"], allocates=True)
